@@ -1,5 +1,5 @@
-(* C13 -- readers: (a) the repaired reader (proposed patch of finding C13-READ-NAMES) accepts exactly the files whose final names are
-   pairwise distinct, which are exactly the files on which the present reader keeps every record; on an accepted file nothing is
+(* C13 -- readers: (a) the repository's reader (read_exodus_checked, /repo ce166ed) accepts exactly the files whose final names are
+   pairwise distinct, which are exactly the files on which the reader without the check keeps every record; on an accepted file nothing is
    lost; (b) block_maps are the slices of the element number map, (c) coordinates (model/M_C13_ReadChk.v). *)
 From Coq Require Import List Arith ZArith Bool Lia.
 From OV.model Require Import M_C13_Combine M_C13_Read M_C13_ReadFile M_C13_ReadChk.
@@ -237,3 +237,35 @@ Lemma read_checked_nonvacuous :
   (exists r', read_exodus_checked true clash_auto clash_auto clash_auto sample_file = Some r')
   /\ read_block_maps None (rm_blocks (read_exodus true clash_auto clash_auto clash_auto sample_file)) = [(6%Z, [1]); (7%Z, [2])].
 Proof. split; [eexists; reflexivity | reflexivity]. Qed.
+
+(* ---- the repository's reader (since ce166ed) in ONE statement: on every well-formed file it either rejects -- exactly when some final
+        names coincide -- or returns a mesh in which every file row is an element (in range, 3 / 6 entries), every block / node set / side
+        set of the file is stored under its name with all its members, and block_maps give every block its slice of the element number map *)
+Theorem read_exodus_checked_whole_file six aB aN aS f : exo_wf six f ->
+  match read_exodus_checked six aB aN aS f with
+  | None => ~ (NoDup (final_names aB 0 (ef_bnames f)) /\ NoDup (final_names aN 0 (ef_nsnames f)) /\ NoDup (final_names aS 0 (ef_ssnames f)))
+  | Some r =>
+      (NoDup (final_names aB 0 (ef_bnames f)) /\ NoDup (final_names aN 0 (ef_nsnames f)) /\ NoDup (final_names aS 0 (ef_ssnames f)))
+      /\ length (rm_conns r) = list_sum (map (@length _) (ef_blocks f))
+      /\ Forall (Forall (fun n => n < ef_nnodes f)) (rm_conns r) /\ Forall (fun row => length row = if six then 6 else 3) (rm_conns r)
+      /\ length (rm_blocks r) = length (ef_blocks f) /\ concat (map snd (rm_blocks r)) = seq 0 (length (rm_conns r))
+      /\ length (rm_nodesets r) = length (ef_nodesets f) /\ members (rm_nodesets r) = list_sum (map (@length _) (ef_nodesets f))
+      /\ length (rm_sidesets r) = length (ef_sidesets f)
+      /\ forall emap, (match emap with Some l => length l = length (rm_conns r) | None => True end) ->
+           concat (map snd (read_block_maps emap (rm_blocks r))) = match emap with Some l => l | None => seq 1 (length (rm_conns r)) end
+  end.
+Proof.
+  intros Hwf. destruct (read_exodus_checked six aB aN aS f) as [r |] eqn:E.
+  - pose proof (proj1 (proj1 (read_exodus_checked_spec six aB aN aS f) r) E) as [(K1 & K2 & K3) ->].
+    destruct (read_exodus_elements six aB aN aS f Hwf) as (A1 & _ & A3 & A4).
+    destruct (read_exodus_blocks six aB aN aS f Hwf K1) as (_ & _ & B3 & B4).
+    destruct (read_exodus_nodesets six aB aN aS f Hwf K2) as (N1 & _).
+    destruct (read_exodus_sidesets six aB aN aS f Hwf K3) as (S1 & _).
+    split; [auto |]. split; [exact A1 |]. split; [exact A3 |]. split; [exact A4 |]. split; [exact B4 |]. split; [exact B3 |].
+    split; [exact N1 |]. split; [| split; [exact S1 |]].
+    + unfold read_exodus. cbn [rm_nodesets]. rewrite dict_of_nodup by (try exact K2; rewrite final_names_length, map_length; apply (wf_nsn _ _ Hwf)).
+      unfold members. rewrite <- (map_map snd (@length nat)), map_snd_combine_eq by (rewrite final_names_length, map_length; apply (wf_nsn _ _ Hwf)).
+      rewrite map_map. f_equal. apply map_ext. intros l. apply to0_length.
+    + intros emap Hm. destruct (read_block_maps_spec six aB aN aS f Hwf K1 emap Hm) as (_ & _ & _ & C). exact C.
+  - exact (proj1 (proj2 (read_exodus_checked_spec six aB aN aS f)) E).
+Qed.
